@@ -103,6 +103,47 @@ def echo (a : Ascii) (sq : Sq) : Ascii × Status × Bytes :=
             trk := { a.trk with currpl := saveTrk.currpl, curbpl := saveTrk.curbpl, prvrpl := saveTrk.prvrpl, prvbpl := saveTrk.prvbpl } },
    .ok, out)
 
+/-! ## sqascii_GuessAlphabet (recording mode + rewind) -/
+
+/-- `esl_sq_GuessAlphabet` + `esl_abc_GuessAlphabet` on a text-mode sequence: eslUNKNOWN 0, eslRNA 1, eslDNA 2, eslAMINO 3.
+    (`k ≤ 0.02·n` in binary64 is `50·k ≤ n` for the sample sizes ≤ 10001 that can occur.) -/
+def guessAbcType (seq : Bytes) : Nat :=
+  let up := fun (c : UInt8) => if 97 ≤ c && c ≤ 122 then c - 32 else c
+  let letters := (seq.toList.map up).filter (fun c => 65 ≤ c && c ≤ 90)
+  let sample := letters.take 10001
+  let ct := fun (ch : Char) => (sample.filter (fun c => c.toNat == ch.toNat)).length
+  let sumOver := fun (str : String) => (str.toList.map ct).foldl (· + ·) 0
+  let kinds := fun (str : String) => (str.toList.filter (fun ch => ct ch > 0)).length
+  let n := sample.length
+  let n1 := sumOver "EFIJLOPQZ"; let x1 := kinds "EFIJLOPQZ"
+  let n2 := sumOver "ACG";       let x2 := kinds "ACG"
+  let n3 := sumOver "DHKMRSVWY"; let x3 := kinds "DHKMRSVWY"
+  let nt := ct 'T'; let xt := if nt > 0 then 1 else 0
+  let nu := ct 'U'; let xu := if nu > 0 then 1 else 0
+  let nx := ct 'X'
+  let nn := ct 'N'; let xn := if nn > 0 then 1 else 0
+  if n ≤ 10 then 0
+  else if n > 2000 && nn == n then 2
+  else if n1 > 0 then 3
+  else if 50 * (n - (n2 + nt + nn)) ≤ n && x2 + xt == 4 then 2
+  else if 50 * (n - (n2 + nu + nn)) ≤ n && x2 + xu == 4 then 1
+  else if 50 * (n - (n1 + n2 + n3 + nn + nt + nx)) ≤ n && n3 > n2 && x1 + x2 + x3 + xn + xt ≥ 15 then 3
+  else 0
+
+/-- `sqascii_GuessAlphabet()`: record while reading the first window of ≤ 4000 residues in text mode, guess, rewind onto the recording.
+    Status names: `.ok`, `.eformat` …; `enodata` / `enoalphabet` are reported as strings by the driver. -/
+def guessAlphabet (a : Ascii) : Ascii × String × Nat :=
+  let a := { a with recording := 1 }
+  let (a, sq, st) := readWindow a ({} : Sq) 0 4000
+  if st == .eof then (a, "enodata", 0) else
+  if st == .fault then (a, "fault", 0) else
+  if st != .ok && st != .eod then (a, st.name, 0) else
+  let t := guessAbcType sq.seq
+  if t == 0 then (a, "enoalphabet", 0) else
+  let a := { a with mpos := 0, linenumber := 1, recording := 0 }
+  let (a, st) := loadbuf a
+  if st != .ok then (a.raise, st.name, 0) else (a, "ok", t)
+
 /-- `create_ssi_index()` of `esl-sfetch`: scan with `ReadInfo`, one primary key per record, accession as alias.
     Returns `none` when the scan ends in anything but EOF (the tool then dies with a message). -/
 def buildIndexLoop : Nat → Ascii → Ssi → Option (Ascii × Ssi)
